@@ -12,6 +12,8 @@ const ssPkg = "pkg/core/statesync"
 
 // C20: restore-hash-guard, sync-dominators, stage-after-persist, slot-clear-guard, restore-fresh-node
 func ruleSyncGuards(c *Ctx) {
+	cleanBeforeSync(c)
+	ringWindowGate(c)
 	fnAB := [3]string{ssPkg, "Module", "AddBlock"}
 	runGates(c, []GateSpec{
 		// at most once: the ledger reads the height it compares the block index with inside the critical section that
